@@ -171,6 +171,9 @@ def run_all(chk, fsets, tier):
     run_skeletons(chk, F)
     check_omega_doc(chk)
     import rules_ivl
-    rules_ivl.run_c04_fields(chk, F, fsets[0], tier)
+    for fs in fsets:
+        rules_ivl.run_c04_fields(chk, facts.load(fs), fs, tier)
+    # VByte (the complete 7-bit-group code): counts, step points and continuation bits on every value (rules shared with C18)
+    rules_ivl.run_c18(chk, F, fsets[0], tier, prefix="D4.vbyte.")
     chk.trust("sa/refspec.py (field-level definitions written from the module docs, cross-checked against refcodes.py), transfer functions of sa/ivl.py")
     chk.trust("rustc const evaluation and MIR, exporter, refcodes.py (definitions written from the module docs), the field-skeleton table in sa/rules_c04.py (written from the module docs)")
